@@ -166,12 +166,7 @@ class SchedWorld(object):
         return out
 
     def _install_failpoint(self):
-        mon = sys.monitoring
-        try:
-            mon.use_tool_id(TOOL_ID, 'mvf-failpoint')
-        except ValueError:
-            pass
-        self._mon_codes = self._codes()
+        from mvf import failpoint
 
         def on_line(code, line):
             u = self.coop.current()
@@ -187,19 +182,11 @@ class SchedWorld(object):
                     self.rec.emit('CRASH', instance=inst, line=line,
                                   func=code.co_name)
                     raise Crash()
-        mon.register_callback(TOOL_ID, mon.events.LINE, on_line)
-        for c in self._mon_codes:
-            mon.set_local_events(TOOL_ID, c, mon.events.LINE)
+        failpoint.activate(self._codes(), on_line)
 
     def _remove_failpoint(self):
-        mon = sys.monitoring
-        try:
-            for c in self._mon_codes:
-                mon.set_local_events(TOOL_ID, c, 0)
-            mon.register_callback(TOOL_ID, mon.events.LINE, None)
-            mon.free_tool_id(TOOL_ID)
-        except Exception:
-            pass
+        from mvf import failpoint
+        failpoint.deactivate()
 
     # -- units -------------------------------------------------------------
     def spawn_schedules(self):
